@@ -59,6 +59,9 @@ def random_grammar(rnd, nT=None, nN=None, max_alts=3, max_len=3, p_term=0.55, p_
     if rnd.random() < 0.15:
         nonterms[0]['name'] = 'start'  # the default start symbol: no %start needed (and the name of yaccgo's internal start symbol)
         implicit = rnd.random() < 0.6
+    if nN > 1 and rnd.random() < 0.12:
+        # a nonterminal that the declarations list in a %token line (it has rules, so it is a nonterminal all the same)
+        nonterms[rnd.randrange(1, nN)]['as_token'] = True
     precs = []
     if rnd.random() < p_prec:
         pool = list(range(nT))
@@ -428,7 +431,9 @@ def render_decls(g, lang='go', with_tags=True):
         out.append('%%token %s%s%s\n' % (tag, tname(g, i), num))
     if with_tags:
         for n in g['nonterms']:
-            if n['tag']:
+            if n.get('as_token'):
+                out.append('%%token <%s> %s\n' % (n['tag'] or 'v0', n['name']))     # a name with rules, listed in a %token line
+            elif n['tag']:
                 out.append('%%type <%s> %s\n' % (n['tag'], n['name']))
     for kind, ts in g['precs']:
         out.append('%%%s %s\n' % (kind, ' '.join(tname(g, i) for i in ts)))
